@@ -127,6 +127,12 @@ def second_call(m, sites, stop, tag):
     return pairs
 
 
+try:
+    from known_regions import REGIONS
+except ImportError:
+    REGIONS = {}
+
+
 def file_vocabulary(prog, ty):
     lits = set()
 
@@ -307,7 +313,17 @@ def check_type(prog, ty, K, timeout_ms=120000):
             res.append({"type": ty, "query": "code-%s-documented" % code, "verdict": "not-encoded",
                         "detail": "code %s is reported by the implementation but the reference model has no rule for it" % code})
             continue
-        solve("code-%s-reported-iff-rule-violated" % code, reported(full, code) != B(e), extra={"code": code})
+        region_fn = REGIONS.get((ty, code))
+        if region_fn is None:
+            solve("code-%s-reported-iff-rule-violated" % code, reported(full, code) != B(e), extra={"code": code})
+        else:
+            # a recorded deviation: asked inside the region where it is known to live (re-established, KNOWN-FINDING) and
+            # outside it (anything there is a new violation)
+            region = B(region_fn(I, z3))
+            solve("code-%s-reported-iff-rule-violated(inside the recorded deviation's region)" % code,
+                  And(reported(full, code) != B(e), region), extra={"code": code, "known_region": True})
+            solve("code-%s-reported-iff-rule-violated(outside the recorded deviation's region)" % code,
+                  And(reported(full, code) != B(e), Not(region)), extra={"code": code})
     sym_codes = [g for g, c in full if not isinstance(c, str)]
     if sym_codes:
         solve("no-undocumented-code", extra={"mode": "undocumented"}, formula=Or(*[And(g, Not(Or(*[to_strz(c) == z3.StringVal(k) for k in exp]))) for g, c in full if not isinstance(c, str)]))
